@@ -93,9 +93,11 @@ PROPS = {
     "C09": {
         "title": "Rolling-hash boundaries depend only on the last w bytes, not on call splitting",
         "variant": "default",
-        "quick": {"cases": 40000},
-        "thorough": {"cases": 1500000},
-        "rule": "rapidcheck cases: w in 1..48, w init bytes and a stream (<= 8 KiB) from a seed, mask with 0..12 random bits (or fully random) and trigger = random & mask, "
+        "quick": {"cases": 40000, "opts": ["giants=8"]},
+        "thorough": {"cases": 1500000, "opts": ["giants=200"]},
+        "rule": "per worker the first cases are run calls told that 2^31..2^32-1 bytes are available (a periodic read-only 5 GiB mapping; masks of <= 10 bits so that the "
+                "first hit is within KiBs), scan implementation round-robin. Otherwise "
+                "rapidcheck cases: w in 1..48, w init bytes and a stream (<= 8 KiB) from a seed, mask with 0..12 random bits (or fully random) and trigger = random & mask, "
                 "a cyclic list of max_len values (0, <= w, w+1, w+2..w+9, up to 2000) cutting the stream into run calls that resume at the returned offset; scan loop "
                 "forced to base/_00/_04 through the dispatch pointer (hook) or left to the dispatcher; isal_ and legacy entry points; buffers start-flush (buffer[-1] "
                 "unmapped) or end-flush. Oracle: per call the first position whose from-scratch window hash (frozen copy of the constant table) satisfies "
